@@ -981,7 +981,8 @@ class ProductSpaceElement(LinearSpaceElement):
                         # not to retrieve scalar values from these
                         # elements, we use a slice of size 1.
                         idx = indices[1]
-                        indexed = [p[idx:idx + 1] for p in part]
+                        # (`idx + 1` is 0 for the last entry given as -1)
+                        indexed = [p[idx:idx + 1 or None] for p in part]
                     else:
                         # Here we're still in the "product space chain",
                         # so we can use recursion to go on.
